@@ -171,19 +171,19 @@ def rand_field(rng, mesh, n, nvdim, values=None):
         mag = 10.0 ** rng.uniform(-3, 6)
         values = rng.normal(size=(*n, nvdim)) * mag
     if nvdim == 1:
-        return df.Field(mesh, nvdim=1, value=values), None
+        return gen.via_history(None, df.Field(mesh, nvdim=1, value=values)), None
     dims = list(mesh.region.dims)
     vdims = gen.pick(rng, [None, ["a", "b", "c"], ["mx", "my", "mz"], ["z", "x", "y"]])
     labels = vdims or ["x", "y", "z"]
     if rng.random() < 0.3 and vdims is None and dims == ["x", "y", "z"]:
         sigma = np.arange(3)
-        f = df.Field(mesh, nvdim=3, value=values)
+        f = gen.via_history(None, df.Field(mesh, nvdim=3, value=values))
     else:
         sigma = rng.permutation(3)
         # component sigma[k] points along axis k
         mapping = {labels[int(sigma[k])]: dims[k] for k in range(3)}
         mapping = gen.shuffle_keys(rng, {lab: mapping[lab] for lab in labels})
-        f = df.Field(mesh, nvdim=3, value=values, vdims=vdims, vdim_mapping=mapping)
+        f = gen.via_history(None, df.Field(mesh, nvdim=3, value=values, vdims=vdims, vdim_mapping=mapping))
     return f, np.asarray(sigma)
 
 
